@@ -219,6 +219,41 @@ theorem passthrough_injective_partial (U : Nat → Bytes) (hU : Function.Injecti
     · rw [peek_pass_other U _ sc fb m hm] at h2
       exact hnm (peek_inj_leaf U hU (inv_exec U (inv_init d) ops) fb hfb n m a h1 h2)
 
+/-- the provider installed by `PropagateDecoderPipeBlankNodeStringProvider` labels every node that is not a
+    string node of the decoding factory with the bare text of a UUID -/
+theorem propagate_labels_uuid (U : Nat → Bytes) (d : Nat) (ops : List Op) (i j : Nat) (hij : i < j)
+    (sc : Nat) (p : ProvRef) (n : Node) (a : Bytes)
+    (hi : (trace U (init d) ops)[i]? = some (.propagate (some (.strf sc)), .prov p))
+    (hj : (trace U (init d) ops)[j]? = some (.getLabel p n, .label a))
+    (hn : ∀ v, n ≠ some (.bnString sc v)) : ∃ k, a = U k := by
+  obtain ⟨hopi, hoi⟩ := trace_getElem? U (init d) ops i _ _ hi
+  obtain ⟨_, hoj⟩ := trace_getElem? U (init d) ops j _ _ hj
+  -- what `propagate` returned and allocated
+  have key : ∃ k, p = .pass sc (.uuid k) ∧
+      ∃ q, (exec U (init d) (ops.take (i + 1))).uuids[k]? = some q ∧ q.format = asc "%s" := by
+    rw [exec_take_succ U (init d) ops i _ hopi]
+    generalize exec U (init d) (ops.take i) = s at hoi ⊢
+    simp only [step] at hoi ⊢
+    split at hoi
+    · rename_i hsc
+      simp only [Out.prov.injEq] at hoi
+      refine ⟨s.uuids.length, hoi, ⟨{ format := asc "%s", known := [] }, ?_, rfl⟩⟩
+      simp [hsc]
+    · cases hoi
+  obtain ⟨k, rfl, q, hq, hfmt⟩ := key
+  obtain ⟨q', hq', hfmt', _⟩ := (ext_take_le U (init d) ops (Nat.succ_le_of_lt hij)).uuids k q hq
+  simp only [step] at hoj
+  rw [getLabel_pass_other U _ sc (.uuid k) n hn] at hoj
+  simp only [getLabel, hq'] at hoj
+  have hs : ∀ x, sprintf1 q'.format uuidVerbs x = .label x := by
+    intro x
+    rw [hfmt', hfmt]
+    have : splitVerb uuidVerbs (asc "%s") = some ([], []) := by decide
+    simp [sprintf1, this]
+  split at hoj
+  · rw [hs] at hoj; simp at hoj; exact ⟨_, hoj⟩
+  · rw [hs] at hoj; simp at hoj; exact ⟨_, hoj⟩
+
 /-! ### mapper -/
 
 theorem mapNode_out (s : State) (m : Nat) (n : Node) (x : Node) (h : (mapNode s m n).2 = .node x) :
